@@ -258,10 +258,10 @@ def mutations(o):
         out.append(("['zz9'] = 99", lambda: o.__setitem__("zz9", 99)))
         out.append(("[99] = 'zz9'", lambda: o.__setitem__(99, "zz9")))
     elif isinstance(o, set):
+        # (no pop(): WHICH member a set hands out is not determined by its value)
         out.append(("add(99)", lambda: o.add(99)))
         out.append(("add('zz9')", lambda: o.add("zz9")))
-        if len(o):
-            out.append(("pop()", lambda: o.pop()))
+        out.append(("clear()", lambda: o.clear()))
     return out
 
 
@@ -491,3 +491,58 @@ def lattice_classes(chain, leaf):
         out.append(("extra", {"name": name + "_x", "fields": [{"name": "g", "field": {"t": "num", "k": "Integer", "s": "Any"}}],
                               "required": [], "additional": True}, [("g", ("int", 1)), ("extra_1", v)]))
     return out
+
+
+# ------------------------------------------------------------------ lock-step changes at every depth
+
+def _outcome(thunk):
+    try:
+        thunk()
+        return "ok"
+    except Exception as ex:  # noqa
+        return E.exn_name(ex)
+
+
+def deep_lockstep(build, kind, state, same_outcome, prepare=None):
+    """x: an instance; y: its copy; r: a second regularly constructed instance with the same values.  EVERY
+    mutable object reachable from y (deepest first) and the object at the same place in r are put through
+    the same candidate changes of their own public interface (valid and invalid arguments) in lock step:
+    the outcome class and the resulting state must agree (the copy validates like a regular instance), and
+    x must not change.  Returns [(symptom, kind of object, path, what)] (first divergence only)."""
+    x, r = build(), build()
+    y = make_copy(kind, x)
+    if y is x:
+        return []
+    if prepare is not None:
+        prepare(y, x)
+    g = Graph()
+    cy = g.add(y)
+    if cy[0] != "ref":
+        return []
+    paths = sorted(((p, g.nodes[i]["kind"]) for i, p in g.reach(cy, owners=False).items()
+                    if g.nodes[i]["kind"] in MUTABLE), key=lambda t: (-len(t[0]), repr(t[0])))
+    sx = state(x)
+    if state(y) != state(r):
+        return [("initial-state-differs", "inst", [], "the %s is %r, a regular instance with the same values is %r" % (
+            kind, state(y), state(r)))]
+    for p, k in paths:
+        try:
+            oy, orr = navigate(y, p), navigate(r, p)
+        except Exception:  # noqa  (an earlier change removed the place)
+            continue
+        if type(oy) is not type(orr):
+            return [("type-differs", k, p, "copy%s is a %s, in a regular instance it is a %s" % (
+                path_str(p), type(oy).__name__, type(orr).__name__))]
+        for (dy, ty), (dr, tr) in zip(mutations(oy), mutations(orr)):
+            if dy != dr:
+                break
+            a, b = _outcome(ty), _outcome(tr)
+            where = "%s on copy%s" % (dy, path_str(p))
+            if state(x) != sx:
+                return [("original-changed", k, p, "%s changed the original: %r -> %r" % (where, sx, state(x)))]
+            if not same_outcome(a, b):
+                return [("outcome-differs", k, p, "%s gives %s, on a regular instance with the same values %s" % (where, a, b))]
+            if state(y) != state(r):
+                return [("state-differs", k, p, "after %s the %s is %r, a regular instance with the same values is %r" % (
+                    where, kind, state(y), state(r)))]
+    return []
